@@ -92,6 +92,27 @@ Theorem C20_no_mixing_partial :
     /\ In (v_vals ver) (hist_of (v_master ver) (w_post w)).
 Proof. exact (@hist_no_mixing). Qed.
 
+(* ------------------------------------------------------------------ masters on another connection *)
+(* wstep foreign: the masters of the history live on a per-call connection or
+   in a Transaction while the class's own connection points at another
+   database (w_decoy) with masters of the same ids.  Every history -- restores
+   included, since 61db062 -- is the class-mode history on the instance's
+   connection, and the class's own database is not touched: every theorem
+   above carries over to these modes. *)
+Theorem C20_foreign_connection :
+  forall foreign ops ws,
+    w_main (wfinal foreign ws ops) = vfinal (w_main ws) ops /\ w_decoy (wfinal foreign ws ops) = w_decoy ws.
+Proof. exact (@wfinal_any). Qed.
+
+(* regression of restore_ignores_version_connection (fixed by 61db062): restore() of a version on a foreign
+   connection restores ITS master (row 1 back to the first state) and leaves the master of the same id in the class's
+   own database alone *)
+Example C20_fixed_restore_foreign_connection :
+  snd (wstep true (wfinal true winit (firstn 3 ops_foreign)) (VRestore 1)) = VDone
+  /\ row_of 1 (m_tbl (w_main (wfinal true winit ops_foreign))) = Some [(CA, VInt 1); (CB, VNull); (CC, VInt 7)]
+  /\ row_of 1 (m_tbl (w_decoy (wfinal true winit ops_foreign))) = Some [(CA, VInt 101); (CB, VStr [100%N]); (CC, VInt 7)].
+Proof. vm_compute. repeat split. Qed.
+
 (* ------------------------------------------------------------------ non-vacuity *)
 Definition ex_ops : list vop :=
   [VCreate [(CA, VInt 1)]; VCreate [(CA, VInt 2); (CB, VStr [120%N])]; VAssign 1 CA (VInt 5);
@@ -125,6 +146,7 @@ Proof. vm_compute. reflexivity. Qed.
 Print Assumptions C20_history_inv_refuted.
 Print Assumptions C20_db_refused_update_leaves_version_refuted.
 Print Assumptions C20_keyword_refused_set_leaves_version_refuted.
+Print Assumptions C20_foreign_connection.
 Print Assumptions C20_history_inv_partial.
 Print Assumptions C20_refused_by_validation_changes_nothing.
 Print Assumptions C20_one_version_per_update.
